@@ -9,7 +9,7 @@ Extraction "model.ml"
   lenN
   p2 tlv_next collect tlvs_len tlvs_is_empty
   h_display h_length h_len h_is_empty h_address_family h_address_bytes h_tlv_bytes h_as_bytes h_to_owned
-  addresses_len addresses_is_empty family_to_u16 version_or_command protocol_or_family family_code
+  addresses_len addresses_is_empty family_to_u16 version_or_command command_or_version family_or_protocol protocol_or_family byte_length family_code
   is_incomplete2 is_complete2
   utf8_valid parse_u16 parse_ipv4 parse_ipv6 fmt_dec fmt_ipv4 fmt_ipv6
   p1 p1s addresses_from_str header_from_str h1_protocol addrs_protocol h1_addresses_str h1_to_string h1_to_owned fmt1
